@@ -24,6 +24,19 @@ DUST18 = D("2e-18")
 HUGE = D(10) ** 12
 
 
+DECIMALS = {"USDC": 6, "USDT": 6}
+
+
+def _S(ctx):
+    """token supplied in the scenario (18 decimals by default; the 6-decimal variants exercise decimal-dependent code)"""
+    return ctx.p.get("supply_token", "WETH")
+
+
+def _B(ctx):
+    """token borrowed / second token"""
+    return ctx.p.get("borrow_token", "DAI")
+
+
 def _idx(ctx, name, lo=1):
     return ctx.dec(name, lo, 10)
 
@@ -37,8 +50,8 @@ def _wallet_after(ctx, name, after, before, delta):
 
 def supply_accrual(ctx):
     """supply a1 @li0 ; bar ; supply a2 @li1 ; bar @li2 -> amount == a1*li2/li0 + a2*li2/li1"""
-    w = AaveWorld(ctx, ["WETH", "DAI"])
-    t = w.tok("WETH")
+    w = AaveWorld(ctx, [_S(ctx), _B(ctx)], decimals=DECIMALS)
+    t = w.tok(_S(ctx))
     a1 = ctx.dec("a1", 0, HUGE, lo_open=True)
     a2 = ctx.dec("a2", 0, HUGE, lo_open=True)
     w0 = ctx.dec("wallet0", 0, HUGE * 4)
@@ -49,10 +62,10 @@ def supply_accrual(ctx):
     p = ctx.dec("p_weth", 0, 10**7, lo_open=True)
     coll = ctx.flag("collateral")
     other = ctx.flag("other_token_op_between")
-    one, pr = {"WETH": D(1), "DAI": D(1)}, {"WETH": p, "DAI": D(1)}
+    one, pr = {_S(ctx): D(1), _B(ctx): D(1)}, {_S(ctx): p, _B(ctx): D(1)}
     w.broker.set_balance(t, w0)
-    w.broker.set_balance(w.tok("DAI"), D(1000))
-    w.set_row({"WETH": li0, "DAI": D(1)}, one, pr)
+    w.broker.set_balance(w.tok(_B(ctx)), D(1000))
+    w.set_row({_S(ctx): li0, _B(ctx): D(1)}, one, pr)
     try:
         w.market.supply(t, a1, coll)
     except AssertionError:
@@ -64,10 +77,10 @@ def supply_accrual(ctx):
     act = w.actions[-1]
     ctx.check("supply: action records the stated amount", act.amount == a1)
     ctx.check("supply: action deposit_after equals position", ctx.close(act.deposit_after, a1, rel=REL))
-    w.set_row({"WETH": li1, "DAI": D(1)}, one, pr)
+    w.set_row({_S(ctx): li1, _B(ctx): D(1)}, one, pr)
     ctx.check("accrual after one bar: amount == a1*li1/li0", ctx.close(w.market.get_supply(t).amount, a1 * li1 / li0, rel=REL))
     if other:
-        w.market.supply(w.tok("DAI"), D(10), True)
+        w.market.supply(w.tok(_B(ctx)), D(10), True)
     wal1 = w.broker.get_token_balance(t)
     try:
         w.market.supply(t, a2, coll)
@@ -76,9 +89,9 @@ def supply_accrual(ctx):
         ctx.check("second supply within wallet balance is accepted", a2 > wal1)
         return
     _wallet_after(ctx, "second supply: wallet decreases by exactly the stated amount", w.broker.get_token_balance(t), wal1, -a2)
-    w.set_row({"WETH": li2, "DAI": D("1.5")}, one, pr)
+    w.set_row({_S(ctx): li2, _B(ctx): D("1.5")}, one, pr)
     if other:
-        w.market.withdraw(w.tok("DAI"), D(5))
+        w.market.withdraw(w.tok(_B(ctx)), D(5))
     exp = a1 * li2 / li0 + a2 * li2 / li1
     got = w.market.get_supply(t).amount
     ctx.observe("supply_amount", got)
@@ -90,19 +103,19 @@ def supply_accrual(ctx):
 
 def withdraw_moves(ctx):
     """supply a @li0 ; bar @li1 ; withdraw x -> wallet += x, position -= x ; full withdrawal removes the entry"""
-    w = AaveWorld(ctx, ["WETH", "DAI"])
-    t = w.tok("WETH")
+    w = AaveWorld(ctx, [_S(ctx), _B(ctx)], decimals=DECIMALS)
+    t = w.tok(_S(ctx))
     a = ctx.dec("a", D("1e-6"), HUGE)
     li0 = _idx(ctx, "li0")
     li1 = _idx(ctx, "li1")
     ctx.assume(li0 <= li1)
     p = ctx.dec("p_weth", 0, 10**7, lo_open=True)
     mode = ctx.choose("mode", 3)  # 0: explicit amount, 1: amount=None (everything), 2: explicit amount equal to the balance
-    one, pr = {"WETH": D(1), "DAI": D(1)}, {"WETH": p, "DAI": D(1)}
+    one, pr = {_S(ctx): D(1), _B(ctx): D(1)}, {_S(ctx): p, _B(ctx): D(1)}
     w.broker.set_balance(t, a * 2 + 1)
-    w.set_row({"WETH": li0, "DAI": D(1)}, one, pr)
+    w.set_row({_S(ctx): li0, _B(ctx): D(1)}, one, pr)
     w.market.supply(t, a, ctx.flag("collateral"))
-    w.set_row({"WETH": li1, "DAI": D(1)}, one, pr)
+    w.set_row({_S(ctx): li1, _B(ctx): D(1)}, one, pr)
     wal0 = w.broker.get_token_balance(t)
     held = a * li1 / li0
     if mode == 0:
@@ -118,6 +131,7 @@ def withdraw_moves(ctx):
         ctx.outcome("rejected")
         xx = x if x is not None else held
         ctx.check("withdraw of a positive amount within the supplied balance (no debt) is accepted", sor(xx <= 0, xx > held * (1 - REL)))
+        ctx.check("a rejected withdraw leaves position and wallet where they were", sand(t in w.market._supplies and ctx.close(w.market.get_supply(t).amount, held, rel=REL), w.broker.get_token_balance(t) == wal0, len(w.actions) == n_act))
         return
     ctx.outcome("accepted")
     xx = x if x is not None else held
@@ -137,8 +151,8 @@ def withdraw_moves(ctx):
 
 def borrow_accrual(ctx):
     """collateral ; borrow b1 @bi0 ; bar ; borrow b2 @bi1 ; bar @bi2 -> debt == b1*bi2/bi0 + b2*bi2/bi1"""
-    w = AaveWorld(ctx, ["WETH", "DAI"])
-    tc, td = w.tok("WETH"), w.tok("DAI")
+    w = AaveWorld(ctx, [_S(ctx), _B(ctx)], decimals=DECIMALS)
+    tc, td = w.tok(_S(ctx)), w.tok(_B(ctx))
     b1 = ctx.dec("b1", D("1e-6"), 10**9)
     b2 = ctx.dec("b2", D("1e-6"), 10**9)
     bi0 = _idx(ctx, "bi0")
@@ -146,21 +160,21 @@ def borrow_accrual(ctx):
     bi2 = _idx(ctx, "bi2")
     ctx.assume(sand(bi0 <= bi1, bi1 <= bi2))
     wd0 = ctx.dec("wallet_dai0", 0, 10**9)
-    one = {"WETH": D(1), "DAI": D(1)}
-    pr = {"WETH": D(10) ** 7, "DAI": D(1)}
+    one = {_S(ctx): D(1), _B(ctx): D(1)}
+    pr = {_S(ctx): D(10) ** 7, _B(ctx): D(1)}
     w.broker.set_balance(tc, D(10) ** 9)
     w.broker.set_balance(td, wd0)
-    w.set_row(one, {"WETH": D(1), "DAI": bi0}, pr)
+    w.set_row(one, {_S(ctx): D(1), _B(ctx): bi0}, pr)
     w.market.supply(tc, D(10) ** 8, True)  # 1e15 USD of collateral: every borrow below is within limits
     w.market.borrow(td, b1)
     ctx.check("borrow: wallet increases by exactly the stated amount", w.broker.get_token_balance(td) == wd0 + b1)
     ctx.check("borrow: debt equals the stated amount", ctx.close(w.market.get_borrow(td).amount, b1, rel=REL))
     ctx.check("borrow: action records the stated amount", w.actions[-1].amount == b1)
     ctx.check("borrow: action debt_after equals debt", ctx.close(w.actions[-1].debt_after, b1, rel=REL))
-    w.set_row(one, {"WETH": D(1), "DAI": bi1}, pr)
+    w.set_row(one, {_S(ctx): D(1), _B(ctx): bi1}, pr)
     ctx.check("debt accrual after one bar: debt == b1*bi1/bi0", ctx.close(w.market.get_borrow(td).amount, b1 * bi1 / bi0, rel=REL))
     w.market.borrow(td, b2)
-    w.set_row(one, {"WETH": D(1), "DAI": bi2}, pr)
+    w.set_row(one, {_S(ctx): D(1), _B(ctx): bi2}, pr)
     exp = b1 * bi2 / bi0 + b2 * bi2 / bi1
     got = w.market.get_borrow(td).amount
     ctx.observe("debt", got)
@@ -173,8 +187,8 @@ def borrow_accrual(ctx):
 
 def repay_moves(ctx):
     """debt b @bi0 ; bar @bi1 ; repay y (cash / with collateral) -> exact movements ; full repay removes the entry"""
-    w = AaveWorld(ctx, ["WETH", "DAI"])
-    tc, td = w.tok("WETH"), w.tok("DAI")
+    w = AaveWorld(ctx, [_S(ctx), _B(ctx)], decimals=DECIMALS)
+    tc, td = w.tok(_S(ctx)), w.tok(_B(ctx))
     b = ctx.dec("b", D("1e-6"), 10**9)
     bi0 = _idx(ctx, "bi0")
     bi1 = _idx(ctx, "bi1")
@@ -182,15 +196,15 @@ def repay_moves(ctx):
     li1 = _idx(ctx, "li_weth1")
     pw = ctx.dec("p_weth", 1, 10**7)
     mode = ctx.choose("mode", 4)  # 0 cash amount, 1 cash None(all), 2 with collateral amount, 3 with collateral None
-    one = {"WETH": D(1), "DAI": D(1)}
+    one = {_S(ctx): D(1), _B(ctx): D(1)}
     w.broker.set_balance(tc, D(10) ** 9)
     w.broker.set_balance(td, D(0))
-    w.set_row(one, {"WETH": D(1), "DAI": bi0}, {"WETH": D(10) ** 7, "DAI": D(1)})
+    w.set_row(one, {_S(ctx): D(1), _B(ctx): bi0}, {_S(ctx): D(10) ** 7, _B(ctx): D(1)})
     w.market.supply(tc, D(10) ** 8, True)
     w.market.borrow(td, b)
     wd = ctx.dec("wallet_dai", 0, 10**10)
     w.broker.set_balance(td, wd)
-    w.set_row({"WETH": li1, "DAI": D(1)}, {"WETH": D(1), "DAI": bi1}, {"WETH": pw, "DAI": D(1)})
+    w.set_row({_S(ctx): li1, _B(ctx): D(1)}, {_S(ctx): D(1), _B(ctx): bi1}, {_S(ctx): pw, _B(ctx): D(1)})
     debt = b * bi1 / bi0
     coll_before = w.market.get_supply(tc).amount
     y = ctx.dec("y", 0, 10**11) if mode in (0, 2) else None
@@ -207,6 +221,9 @@ def repay_moves(ctx):
             ctx.check("repay of a positive amount within debt and wallet is accepted", sor(yy <= 0, yy > debt * (1 - REL), yy > wd * (1 - D("1e-4"))))
         else:
             ctx.check("repay-with-collateral of a positive amount within debt is accepted", sor(yy <= 0, yy > debt * (1 - REL)))
+        ctx.check("a rejected repay leaves the debt where it was", td in w.market._borrows and ctx.close(w.market.get_borrow(td).amount, debt, rel=REL))
+        ctx.check("a rejected repay leaves wallet and collateral where they were", sand(w.broker.get_token_balance(td) == wd, ctx.close(w.market.get_supply(tc).amount, coll_before, rel=REL)))
+        ctx.check("a rejected repay records no action", len(w.actions) == n_act)
         return
     ctx.outcome("accepted")
     yy = y if y is not None else debt
@@ -235,9 +252,12 @@ def repay_moves(ctx):
 
 def scenarios(tier):
     e = ("AaveV3Market.supply", "withdraw", "borrow", "repay", "set_market_status", "get_supply", "get_borrow")
-    return [
-        Scenario("supply_accrual", supply_accrual, shadows=SHADOWS, entry=e, canary="CANARY accrual ignores index", expect_outcomes=("accepted",)),
-        Scenario("withdraw_moves", withdraw_moves, shadows=SHADOWS, entry=e, canary="CANARY withdraw leaves position", expect_outcomes=("accepted", "rejected")),
-        Scenario("borrow_accrual", borrow_accrual, shadows=SHADOWS, entry=e, canary="CANARY debt ignores index", expect_outcomes=("accepted",)),
-        Scenario("repay_moves", repay_moves, shadows=SHADOWS, entry=e, canary="CANARY repay leaves debt", expect_outcomes=("accepted", "rejected")),
-    ]
+    out = []
+    for tag, prm in (("", {}), ("/6dec", dict(supply_token="USDC", borrow_token="USDT"))):
+        out += [
+            Scenario("supply_accrual" + tag, supply_accrual, params=prm, shadows=SHADOWS, entry=e, canary="CANARY accrual ignores index", expect_outcomes=("accepted",)),
+            Scenario("withdraw_moves" + tag, withdraw_moves, params=prm, shadows=SHADOWS, entry=e, canary="CANARY withdraw leaves position", expect_outcomes=("accepted", "rejected")),
+            Scenario("borrow_accrual" + tag, borrow_accrual, params=prm, shadows=SHADOWS, entry=e, canary="CANARY debt ignores index", expect_outcomes=("accepted",)),
+            Scenario("repay_moves" + tag, repay_moves, params=prm, shadows=SHADOWS, entry=e, canary="CANARY repay leaves debt", expect_outcomes=("accepted", "rejected")),
+        ]
+    return out
